@@ -1,5 +1,5 @@
 /-
-  Model of src/encoder/unigram.rs after the F5/F8 repairs: Viterbi over character boundaries on a
+  Model of src/encoder/unigram.rs after the F5/F8/F13 repairs: Viterbi over character boundaries on a
   shared scratch buffer, back-walk, reversal, fallback recursion. Generic over the cost type so that
   the optimality theorem does not depend on floating point.
 -/
@@ -15,6 +15,22 @@ class Cost (S : Type) where
   big : S                  -- the 1000000.0 restart value
   sub : S → S → S          -- buffer[sub_start].score - token.score as f64
   le : S → S → Bool        -- score <= buffer[sub_end].score
+
+/-- A cost together with the flag `broken` of `SizedPart` (the F13 repair): whether the path crosses a
+    position that no vocabulary entry reaches. The code compares `(broken, score)` lexicographically;
+    the restart value of an unreachable position is `(true, 1000000.0)`. -/
+structure Tainted (S : Type) where
+  broken : Bool
+  val : S
+  deriving Repr, Inhabited
+
+instance {S : Type} [Cost S] : Cost (Tainted S) where
+  zero := ⟨false, Cost.zero⟩
+  big := ⟨true, Cost.big⟩
+  -- `buffer[sub_start].score - token.score`, `broken` copied from the predecessor
+  sub a b := ⟨a.broken, Cost.sub a.val b.val⟩
+  -- `(broken, score) <= (buffer[sub_end].broken, buffer[sub_end].score)` on tuples
+  le a b := (!a.broken && b.broken) || (a.broken == b.broken && Cost.le a.val b.val)
 
 structure SizedPart (S : Type) where
   start : Nat
